@@ -53,8 +53,10 @@ func TestDbgC09(t *testing.T) {
 	if err := json.Unmarshal(d.Case, &c); err != nil {
 		t.Fatal(err)
 	}
-	taken, nt, out := c09Run(t, c)
-	t.Logf("taken=%v nontrivial=%v outcome=%s", taken, nt, out)
+	if os.Getenv("DBG09_NOJUDGE") == "" {
+		taken, nt, out := c09Run(t, c)
+		t.Logf("taken=%v nontrivial=%v outcome=%s", taken, nt, out)
+	}
 	// once more, printing every event in global order
 	w := world.New(c.Backend)
 	w.Run(&world.Op{Kind: "install", DisableHooks: true, Chart: c09Chart(0, 0)})
